@@ -119,7 +119,10 @@ def find_powershell_strings(data: bytes) -> list[Node]:
         deobfuscated, obfuscation = deobfuscate_cmd(powershell)
         cmd_node = Node("shell.cmd", deobfuscated, obfuscation, start, end) if obfuscation else None
         if enc:
-            pwsh_invocation, encoded = deobfuscated.rsplit(maxsplit=1)
+            invocation_and_encoded = deobfuscated.rsplit(maxsplit=1)
+            if len(invocation_and_encoded) != 2:
+                continue  # the only separator was a line continuation
+            pwsh_invocation, encoded = invocation_and_encoded
             encoded = encoded.strip(b"'\"")
             if len(encoded) % 4 or b"^" in encoded:
                 continue  # invalid base64
